@@ -18,7 +18,8 @@ from ..golden import StreamRunner
 
 RULE = ("cases = histories of create(config) / create_same / create_variant (sibling with ONE parameter changed) / advance(object, k actions) / observe(object) / poke_memo(fn, n, s) / finish(object) over up to 6 live objects; "
         "oracle = stream produced for the same config in a fresh interpreter; non-trivial = history in which two objects whose classes share module-level state "
-        "(two of Multistage/Mixed/TwoLevel, or two of the Revolve family) are alive at once and their advancement is interleaved; distinct = distinct operation sequence")
+        "(two of Multistage/Mixed/TwoLevel, or two of the Revolve family) are alive at once and their advancement is interleaved, or an ordered sibling pair (two configs of one such class "
+        "differing in exactly one parameter, run in one pristine process in both orders of use); distinct = distinct operation sequence / distinct ordered pair")
 
 SHARE_A = ("Multistage", "Mixed", "TwoLevel")
 SHARE_B = C.REVOLVE_FAMILY
